@@ -9,7 +9,7 @@ import time
 
 VERIF = os.path.dirname(os.path.dirname(os.path.abspath(__file__)))
 REPO = os.environ.get("VERIF_REPO", "/repo")
-TARGET = os.path.join(VERIF, "target")
+TARGET = os.environ.get("VERIF_TARGET", os.path.join(VERIF, "target"))
 FLAVOURS = ("sync", "astd", "tok")
 FEATURE = {"sync": None, "astd": "astd", "tok": "tok"}
 
@@ -38,11 +38,22 @@ def _cargo(args, cwd):
 
 def build(flavours=FLAVOURS, fsx=True, quiet=True):
     """(Re)build the harness binaries from /repo's current working tree. Incremental."""
+    import shutil
     crate = os.path.join(VERIF, "harness", "opserver")
+    if REPO != "/repo":
+        # testing a scratch copy of the repository (seeded changes): build a copy of the harness crate that
+        # depends on that copy; registered checks never take this path
+        src = crate
+        crate = os.path.join(TARGET, "opserver-crate")
+        os.makedirs(os.path.join(crate, "src"), exist_ok=True)
+        shutil.copy(os.path.join(src, "src", "main.rs"), os.path.join(crate, "src", "main.rs"))
+        with open(os.path.join(src, "Cargo.toml")) as fh:
+            toml = fh.read().replace('path = "/repo"', 'path = "%s"' % REPO)
+        with open(os.path.join(crate, "Cargo.toml"), "w") as fh:
+            fh.write(toml)
     lock = os.path.join(crate, "Cargo.lock")
     if not os.path.exists(lock):
-        import shutil
-        shutil.copy(os.path.join(REPO, "Cargo.lock"), lock)
+        shutil.copy(os.path.join("/repo", "Cargo.lock"), lock)
     procs = []
     env = dict(os.environ)
     env["CARGO_NET_OFFLINE"] = "true"
